@@ -1183,6 +1183,9 @@ func (s *LoadingStore[K, V]) Get(ctx context.Context, key K) (V, error) {
 			// load and store should be atomic
 			shard.mu.Lock()
 			defer shard.mu.Unlock()
+			// unregister before the shard lock is released: a Get that misses
+			// afterwards must start a new load, not join this finished one
+			defer shard.group.forget(key)
 			if shard.closed {
 				return Loaded[V]{}, ErrCacheClosed
 			}
